@@ -603,12 +603,12 @@ def selftest_trace_oracle(check: core.Check) -> None:
     expect[32] = ("viol:InternalError", [{**beginv, "tid": 32}, {**good, "tid": 32, "frag": 1, "code": "internal_error",
                                           "exck": "AssertionError", "site": "signature.py:substitute_typevars",
                                           "exc": "Internal error: AssertionError(TypedValue(typ=<class 'int'>, literal_only=False))"}, end(32)])
-    # the seeded duplicate-enum-member crash is a violation; the open display class is excused for its own values only
+    # the seeded duplicate-enum-member crash and the repaired display crash (b889ca7) are violations
     begind = {**begin, "slice": "decl", "decl": {"kind": "enum", "v": "tup_list"}}
     begindh = {**begin, "slice": "decl", "decl": {"kind": "module_const", "v": "hash_runtimeerror"}}
     expect[33] = ("viol:InternalError", [{**begind, "tid": 33}, {**good, "tid": 33, "code": "internal_error", "exck": "TypeError", "site": "name_check_visitor.py:visit_Assign",
                                           "exc": "Internal error: TypeError(\"unhashable type: 'list'\")"}, end(33)])
-    expect[34] = ("dev:hash-exception-in-literal-display", [{**begindh, "tid": 34}, {**good, "tid": 34, "code": "internal_error", "exck": "RuntimeError",
+    expect[34] = ("viol:InternalError", [{**begindh, "tid": 34}, {**good, "tid": 34, "code": "internal_error", "exck": "RuntimeError",
                                           "site": "name_check_visitor.py:visit_Dict", "exc": "Internal error: RuntimeError('__hash__ raises')"}, end(34)])
     expect[35] = ("viol:InternalError", [{**begind, "tid": 35}, {**good, "tid": 35, "code": "internal_error", "exck": "RuntimeError",
                                           "site": "name_check_visitor.py:visit_Dict", "exc": "Internal error: RuntimeError('__hash__ raises')"}, end(35)])
